@@ -3,6 +3,9 @@
 import json, subprocess
 
 CHECKS = {
+ "C01": ("exploration", "differential across K fresh worker processes (distinct std hash seeds) + repeat call + word-order metamorphic relation; exhaustive tie slice",
+         "The same generated and enumerated inputs are run in 8 (quick) / 16 (thorough) fresh processes whose transcripts (Ok strings or Debug of the Err, plus the trace string) are compared case by case by the driver; inside each process a repeated call and a reversed word list must agree. The tie slice enumerates every base / base+diacritic under every single feature change, i.e. all segments whose rendering needs a tie-break or diacritic composition.",
+         "The per-process hash seed is chosen by the OS, not by VERIF_SEED (that is the property's quantifier); a hash-order dependence on a tie-sensitive input is missed with probability about 2^-(K-1) per input, and thousands of such inputs are run. Replay re-runs the saved case in 12 fresh processes.", "DESIGN.md §5 C01"),
  "C09": ("exploration", "exhaustive enumeration of base+≤2 diacritics and single-feature variants + generated words, round-trip oracle parse(render(w)) == w",
          "Complete enumeration of the ~375k segment texts asca accepts as base + up to two diacritics and of every single feature / sub-node change of base(+1 diacritic) (built structurally), plus generated multi-syllable words; each is rendered and re-parsed and compared structurally (and the text must be a fixed point of the empty rule list). The enumerated part is exhaustive for the stated space; the word part is random search.",
          "Trusted: the hook's parse_word/render_word/word_from_parts wrap Word::new / Word::render unchanged. Bundles listed in known/C09_bundles.txt and click resegmentation are tolerated as known findings.", "DESIGN.md §5 C09"),
